@@ -25,7 +25,7 @@
 (***************************************************************************)
 EXTENDS Integers, Sequences, FiniteSets, TLC, Json, IOUtils
 
-CONSTANTS Part,      \* sub-domain enumerated by this run: "ts" | "dec" | "dur" | "dt" | "lex" | "none"
+CONSTANTS Part,      \* sub-domain enumerated by this run: "ts" | "dec" | "dur" | "dt" | "lex" | "all" | "none"
           Big,       \* FALSE: quick tier boundary sets, TRUE: thorough tier boundary sets
           TsDense,   \* every ms value 0..TsDense (XML -> Python -> XML)
           TsWin,     \* size of the exhaustive windows at 2^31, 2^40 and 2^53/1000
@@ -132,7 +132,8 @@ TsXmlAcceptable(us, ms) == DsLess(AbsDiff(TsToPyUs(ms), us), <<1,0,0,0>>)
 
 TsLex(c) == IF c.f = "lead0" THEN <<"0", "0">> \o Chars(c.ms) ELSE Chars(c.ms)
 
-Samples == JsonDeserialize(IOEnv.SAMPLES_FILE)    \* [ts : Seq(digits), dec : Seq(digits)] drawn by the harness (seeded)
+\* [ts : Seq(digits), dec : Seq(digits)] drawn by the harness (seeded); none when run by hand
+Samples == IF "SAMPLES_FILE" \in DOMAIN IOEnv THEN JsonDeserialize(IOEnv.SAMPLES_FILE) ELSE [ts |-> <<>>, dec |-> <<>>]
 SeqRange(s) == {Tup(s[i]) : i \in 1..Len(s)}
 
 TsWindows == {DsAddSmall(DsSub(P31, NatDs(TsWin \div 2)), k) : k \in 0..TsWin}
@@ -437,6 +438,13 @@ ValueMatches(ty, cs, v) ==
   ELSE IF ty = "boolean" THEN v.b = LexValue(ty, cs).b
   ELSE v.neg = LexValue(ty, cs).neg /\ Tup(v.m) = LexValue(ty, cs).m
 
+SameLexValue(ty, cs1, cs2) ==
+  IF ty = "duration" THEN DurClose(LexValue(ty, cs1), LexValue(ty, cs2))
+  ELSE IF IsEnum(ty) THEN Tup(LexValue(ty, cs1).lit) = Tup(LexValue(ty, cs2).lit)
+  ELSE IF ty = "boolean" THEN LexValue(ty, cs1).b = LexValue(ty, cs2).b
+  ELSE IF ty = "decimal" THEN LexValue(ty, cs1) = LexValue(ty, cs2)
+  ELSE LexValue(ty, cs1).neg = LexValue(ty, cs2).neg /\ Tup(LexValue(ty, cs1).m) = Tup(LexValue(ty, cs2).m)
+
 Decor(base, d) ==
   CASE d = "plain" -> base
     [] d = "upper" -> Upper(base)
@@ -512,6 +520,7 @@ Domain == CASE Part = "ts" -> TsCases
             [] Part = "dur" -> DurCases
             [] Part = "dt" -> DtCases
             [] Part = "lex" -> LexCases
+            [] Part = "all" -> TsCases \cup DecCases \cup DurCases \cup DtCases \cup LexCases
             [] OTHER -> {[k |-> "none"]}
 
 \* lexical value handed to the real code for the XML -> Python cases
